@@ -141,6 +141,13 @@ func stateLeaves(prefix string, s *channel.State, m map[string]leafOps) {
 		return big.NewInt(0)
 	}, inplace: func() { s.IsFinal = !s.IsFinal }, slot: func() { s.IsFinal = !s.IsFinal }, mod: 2}
 	m[prefix+"id"] = leafOps{get: func() *big.Int { return big.NewInt(int64(s.ID[5])) }, inplace: func() { s.ID[5]++ }, slot: func() { s.ID[5]++ }, mod: 256}
+	if _, ok := s.Data.(*channel.MockOp); ok {
+		m[prefix+"data"] = leafOps{
+			get:     func() *big.Int { return new(big.Int).SetUint64(uint64(*s.Data.(*channel.MockOp))) },
+			inplace: func() { *s.Data.(*channel.MockOp)++ },
+			slot:    func() { s.Data = channel.NewMockOp(*s.Data.(*channel.MockOp) + 1) },
+		}
+	}
 }
 
 func sigsLeaves(prefix string, sigs *[]wallet.Sig, m map[string]leafOps) {
@@ -200,10 +207,15 @@ type cloneShape struct {
 	IndexMap              bool
 	EmptyLocked           bool // Locked = empty non-nil slice
 	SigMask               int  // which signature slots are set
+	Data                  bool // the state carries data although the channel has no app (legal: the no-app accepts every transition)
 }
 
 func (s cloneShape) String() string {
-	return fmt.Sprintf("a%dp%dl%d_im%v_el%v_s%d", s.Assets, s.Parts, s.Locked, s.IndexMap, s.EmptyLocked, s.SigMask)
+	d := ""
+	if s.Data {
+		d = "_data"
+	}
+	return fmt.Sprintf("a%dp%dl%d_im%v_el%v_s%d%s", s.Assets, s.Parts, s.Locked, s.IndexMap, s.EmptyLocked, s.SigMask, d)
 }
 
 func mkAlloc(sh cloneShape) channel.Allocation {
@@ -250,7 +262,11 @@ func mkParams(sh cloneShape, seed int64) (*channel.Params, []*simwallet.Account)
 }
 
 func mkState(sh cloneShape, p *channel.Params) *channel.State {
-	return &channel.State{ID: p.ID(), Version: 5, App: channel.NoApp(), Allocation: mkAlloc(sh), Data: channel.NoData()}
+	st := &channel.State{ID: p.ID(), Version: 5, App: channel.NoApp(), Allocation: mkAlloc(sh), Data: channel.NoData()}
+	if sh.Data {
+		st.Data = channel.NewMockOp(7)
+	}
+	return st
 }
 
 func mkTx(sh cloneShape, seed int64) channel.Transaction {
@@ -321,6 +337,7 @@ func CloneSubjects(seed int64) []cloneSubject {
 		{Assets: 1, Parts: 2, Locked: 0, EmptyLocked: true},
 		{Assets: 2, Parts: 3, Locked: 1, IndexMap: true},
 		{Assets: 1, Parts: 2, Locked: 2, IndexMap: false},
+		{Assets: 1, Parts: 2, Locked: 0, Data: true},
 	}
 	for _, sh := range shapes {
 		sh := sh
@@ -386,7 +403,7 @@ func CloneSubjects(seed int64) []cloneSubject {
 	}
 	for _, sh := range []cloneShape{
 		{Assets: 1, Parts: 2, SigMask: 3}, {Assets: 1, Parts: 2, SigMask: 1}, {Assets: 1, Parts: 3, Locked: 1, IndexMap: true, SigMask: 5},
-		{Assets: 2, Parts: 2, SigMask: 0},
+		{Assets: 2, Parts: 2, SigMask: 0}, {Assets: 1, Parts: 2, SigMask: 1, Data: true},
 	} {
 		sh := sh
 		subs = append(subs, cloneSubject{
